@@ -134,8 +134,12 @@ impl Ruleset {
                 }
 
                 // `m.rule.master` should always be the rule with the highest priority, so we insert
-                // this one at most at the second place.
-                let default_position = 1;
+                // this one at most at the second place when it is there.
+                let has_master_rule = self
+                    .override_
+                    .first()
+                    .is_some_and(|rule| rule.rule_id == PredefinedOverrideRuleId::Master.as_str());
+                let default_position = usize::from(has_master_rule);
 
                 insert_and_move_rule(&mut self.override_, rule, default_position, after, before)
             }
